@@ -4,7 +4,7 @@
    text in Inst/C13i.v. *)
 From Coq Require Import NArith List.
 From MTV Require Import Base.Bytes Base.Outcome Base.Str Prim.Crc32 TL.Types TL.Codec TL.Typing TL.TLText
-  TL.Match TL.MatchProofs.
+  TL.Match TL.MatchProofs TL.Names.
 Import ListNotations.
 Open Scope N_scope.
 
@@ -36,3 +36,10 @@ Print Assumptions C13_no_mismatch_reading.
 Theorem C13_crc32_check : crc32 [49; 50; 51; 52; 53; 54; 55; 56; 57] = 3421780262.
 Proof. exact crc32_check. Qed.
 Print Assumptions C13_crc32_check.
+
+(* parameter names and Go field names correspond one to one, in order (modulo case and underscores) *)
+Theorem C13_names_reading : forall ps ns, names_agree ps ns = true <->
+  Forall2 (fun p n => norm_name (p_name p) = norm_name n)
+          (filter (fun p => match p_ty p with PNat => false | _ => true end) ps) ns.
+Proof. exact names_agree_spec. Qed.
+Print Assumptions C13_names_reading.
